@@ -84,4 +84,16 @@ TEXT["C20"] = dict(engine="engineB",
          "These functions consist of one SQL statement each, which no installed deductive verifier can reach; the bounded stand-in is the strongest check available.",
    note="NOT decided: JSON validity of the /api/v1/leases.json body (depends on core::fmt's {:?} of arbitrary strings; outside Verus, too expensive for Kani). update_metrics gauge wiring not under contract yet.")
 
+TEXT["C10"] = dict(engine="verus+engineB",
+   technique="Verus postconditions on handle_discover / handle_request / handle_pkt over the pool contract (lease_recorded), DhcpParse impls in unit dhcpgetters, engine B bounded on real SQLite",
+   level="Unbounded deductive proof: every successful reply (OFFER and ACK) carries option 51 equal to recorded_expiry - recorded_start of the row written for yiaddr, "
+         "that value lies in [300, 86400] (the defaults; nothing can set other bounds), the record starts at the clock reading of the reply and expiry = start + L without wrap-around.",
+   note="Assumed: SQL stub contracts, clock < 0xF0000000, apply_policies leaves min/max lease untouched, ResponseOptions/DhcpOptions accessor contracts (HashMap glue). Renewal rhythm is covered because the bound holds for every table and request.")
+TEXT["C13"] = dict(engine="verus+engineB",
+   technique="Verus postconditions on handle_pkt / handle_request / handle_discover (frame over the abstract lease table, echo of header fields, server-id) + engine B frame check on real SQLite",
+   level="Unbounded deductive proof: handle_pkt returns Ok only for message types 1 (DISCOVER) and 3 (REQUEST); every Err leaves the lease table exactly as it was; a REQUEST whose "
+         "server-id option (4 octets) is none of this server's identifiers returns OtherServer; a reply echoes xid, chaddr, giaddr and flags, carries option 54 (the receiving address, or the "
+         "client-named identifier which is one of ours), and the table differs from the old one only at the row of yiaddr.",
+   note="Assumed: accessor contracts of DhcpOptions/ResponseOptions (HashMap glue), SQL stub contracts; recvdhcp's serverids bookkeeping (async, locks) not under contract.")
+
 NA = {}
